@@ -10,6 +10,7 @@ ENTRIES = {
     "c06len": ("ParamExp.Entry", "entry_len"),
     "c06sub": ("ParamExp.Entry", "entry_sub"),
     "c06rm": ("ParamExp.Entry", "entry_rm"),
+    "c06keys": ("ParamExp.Entry", "entry_keys"),
 }
 TRUSTED = [
     "modelled, not verified: brush-core/src/expansion.rs expand_parameter_expr (UseDefault/AssignDefault/IndicateError/"
@@ -422,6 +423,28 @@ def len_known(c, code, spec):
     return None
 
 
+# keys --------------------------------------------------------------------------------------------
+
+def gen_keys(ctx):
+    cases = []
+    sts = [State("N"), State("U"), State("U", udecl="declare -a x"), State("U", udecl="declare -A x"), State("S", ""), State("S", "v"),
+           State("I", []), State("I", [(0, "a"), (1, "")]), State("I", [(2, "x"), (5, ""), (70, "z")]),
+           State("A", []), State("A", [("k", "v")]), State("A", [("a b", "")])]
+    for st in sts:
+        for nu in (False, True):
+            for c in (False, True):
+                cases.append(("keys", State(st.kind, st.val, st.args, nu, st.udecl), ("a", c)))
+    for _ in range(100 if ctx.quick else 1000):
+        st = rand_state(ctx.rng)
+        cases.append(("keys", st, ("a", ctx.rng.random() < 0.4)))
+    return cases
+
+
+def keys_script(c):
+    _, st, r = c
+    return st.setup() + 'show "${!%s}"\nprintf \'S%%s\\0\' "$?"\n' % ref_text(r)
+
+
 # substring ---------------------------------------------------------------------------------------
 
 EXPRS = [("0", 0), ("1", 1), ("2", 2), ("3", 3), ("5", 5), ("7", 7), ("100", 100), ("-1", -1), ("-2", -2), ("-3", -3),
@@ -522,7 +545,7 @@ def rand_pattern(rng, ws):
         elif x < 0.85:
             pieces.insert(pos, ("Q", rng.choice(["*", "?", "a", " ", "[", "é"])))
         else:
-            pieces.insert(pos, ("P", rng.choice(["[a-c]", "[!a]", "[[:alpha:]]", "[[:space:]]", "*(a|b)", "?(é)", "@(|a)", "+([a-z])"])))
+            pieces.insert(pos, ("P", rng.choice(["[a-c]", "[!a]", "[[:alpha:]]", "[[:space:]]", "*(a|b)", "?(é)", "@(b|a)", "+([a-z])"])))
     return pieces
 
 
@@ -697,6 +720,8 @@ def trivial(c, spec):
     fam = c[0]
     if fam == "cond":
         return False
+    if fam == "keys":
+        return c[1].kind in ("N", "U")
     if fam == "len":
         return words(c[1], c[2]) is None
     if fam == "sub":
@@ -715,7 +740,7 @@ def evaluate(ctx, cases, with_model=True):
     scripts, fields = [], []
     for c in cases:
         fam = c[0]
-        scripts.append({"cond": cond_script, "len": len_script, "sub": sub_script, "rm": rm_script}[fam](c))
+        scripts.append({"cond": cond_script, "len": len_script, "sub": sub_script, "rm": rm_script, "keys": keys_script}[fam](c))
     code_in = []
     for c, s in zip(cases, scripts):
         if c[0] == "rm":
@@ -727,7 +752,7 @@ def evaluate(ctx, cases, with_model=True):
     rm_idx = [i for i, c in enumerate(cases) if c[0] == "rm"]
     btabs = dict(zip(rm_idx, run_bash_tables([(pat_word(cases[i][4]), rm_strings(cases[i])) for i in rm_idx])))
     recs = []
-    by_entry = {"c06cond": [], "c06len": [], "c06sub": [], "c06rm": []}
+    by_entry = {"c06cond": [], "c06len": [], "c06sub": [], "c06rm": [], "c06keys": []}
     for i, c in enumerate(cases):
         fam = c[0]
         rec = {"case": c, "script": scripts[i], "code": code[i][0], "bash": bash[i], "bits": code[i][1], "runs": []}
@@ -737,6 +762,8 @@ def evaluate(ctx, cases, with_model=True):
             by_entry["c06len"].append((i, len_fields(c), 3, "main"))
         elif fam == "sub":
             by_entry["c06sub"].append((i, sub_fields(c), 3, "main"))
+        elif fam == "keys":
+            by_entry["c06keys"].append((i, len_fields(c), 2, "main"))
         else:
             _, st, r, op, pieces = c
             base = st.fields() + ref_fields(r) + [op]
@@ -795,7 +822,8 @@ def judge(recs):
             # the specification's matcher must not be the code's: bash's table (second Coq run), and for the mini
             # grammar additionally a python oracle with its own matcher
             ws = words(c[1], c[2])
-            tables_differ = rec.get("bash_bits") is not None and rec.get("bash_bits") != rec["bits"]
+            bb = rec.get("bash_bits")
+            tables_differ = bool(bb) and len(bb) == len(rec["bits"]) and bb != rec["bits"]
             if tables_differ:
                 stats["rm_matcher_tables_differ"] += 1
             if "bashtab" in runs:
@@ -821,6 +849,8 @@ def judge(recs):
             kid = cond_known(c, code, spec)
         elif fam == "len":
             kid = len_known(c, code, spec)
+        elif fam == "keys":
+            kid = None
         else:
             kid = sub_known(c, code, spec)
         # ---- tie: code vs model of the unchanged code
@@ -907,7 +937,7 @@ def explore(ctx):
 
 
 def run(ctx):
-    cases = gen_cond(ctx) + gen_len(ctx) + gen_sub(ctx) + gen_rm(ctx)
+    cases = gen_cond(ctx) + gen_len(ctx) + gen_sub(ctx) + gen_rm(ctx) + gen_keys(ctx)
     recs = evaluate(ctx, cases)
     mism, specv, bashdis, stale, stats = judge(recs)
     # extraction cross-check
